@@ -52,7 +52,7 @@ type serverHandshakeState struct {
 func (c *Conn) serverHandshake() error {
 	// If this is the first server handshake, we generate a random key to
 	// encrypt the tickets with.
-	c.config.serverInitOnce.Do(func() { c.config.serverInit(nil) })
+	c.config.ensureTicketKeys(nil)
 
 	hs := serverHandshakeState{
 		c: c,
@@ -142,7 +142,7 @@ func (hs *serverHandshakeState) readClientHello() (isResume bool, err error) {
 			c.sendAlert(alertInternalError)
 			return false, err
 		} else if newConfig != nil {
-			newConfig.serverInitOnce.Do(func() { newConfig.serverInit(c.config) })
+			newConfig.ensureTicketKeys(c.config)
 			c.config = newConfig
 		}
 	}
